@@ -30,6 +30,22 @@ theorem jobInv_init (nq ng max : Nat) : JobInv (initState nq ng max) := by
   · intro j h; simp [initState, State.jobOpen] at h
   · intro j1 j2 a q h; simp [initState, State.jobPQ] at h
 
+theorem qjobs_initP {ps : List Bool} {ng max q : Nat} {l : List Nat} (h : (initStateP ps ng max).qjobs q = some l) : l = [] := by
+  simp only [initStateP, State.qjobs, List.getElem?_map] at h
+  cases hp : ps[q]? with
+  | none => simp [hp] at h
+  | some p => simp [hp] at h; exact h
+
+theorem jobInv_initP (ps : List Bool) (ng max : Nat) : JobInv (initStateP ps ng max) := by
+  refine ⟨?_, ?_, ?_, ?_, ?_, ?_, ?_⟩
+  · intro a j q h; simp [initStateP, initState, State.pcAt, Pc.runningQ] at h
+  · intro a j q h; simp [initStateP, initState, State.jobPQ] at h
+  · intro q l j h hj; rw [qjobs_initP h] at hj; cases hj
+  · intro q l h; rw [qjobs_initP h]; exact List.nodup_nil
+  · intro j q h; simp [initStateP, initState, State.jobPQ] at h
+  · intro j h; simp [initStateP, initState, State.jobOpen] at h
+  · intro j1 j2 a q h; simp [initStateP, initState, State.jobPQ] at h
+
 /-- the invariant reads only the program counters (through `runningQ`), `jobPQ`, `qjobs` and `jobOpen` -/
 theorem JobInv.of_eq {s X : State} (h : JobInv s) (hpc : ∀ b, (X.pcAt b).runningQ = (s.pcAt b).runningQ)
     (hj : ∀ i, X.jobPQ i = s.jobPQ i) (hq : ∀ i, X.qjobs i = s.qjobs i) (ho : ∀ i, X.jobOpen i = s.jobOpen i) : JobInv X := by
@@ -202,6 +218,14 @@ theorem fullInv_init (nq ng max : Nat) : FullInv (initState nq ng max) := by
   · intro j1 j2 a q h; simp [initState, State.jobPQ] at h
   · intro j q h; simp [initState, State.jobPQ] at h
   · intro j1 j2 q p1 p2 _ h; simp [initState, State.jobPQ] at h
+
+theorem fullInv_initP (ps : List Bool) (ng max : Nat) : FullInv (initStateP ps ng max) := by
+  refine ⟨jobInv_initP ps ng max, ?_, ?_, ?_, ?_, ?_⟩
+  · intro j pq h; simp [initStateP, initState, State.jobPQ] at h
+  · intro q l h; rw [qjobs_initP h]; exact List.Pairwise.nil
+  · intro j1 j2 a q h; simp [initStateP, initState, State.jobPQ] at h
+  · intro j q h; simp [initStateP, initState, State.jobPQ] at h
+  · intro j1 j2 q p1 p2 _ h; simp [initStateP, initState, State.jobPQ] at h
 
 theorem OrderInvF.congr {J J' Q Q' B B' E E' N N'} (h : OrderInvF J Q B E N) (hJ : ∀ i, J' i = J i) (hQ : ∀ i, Q' i = Q i) (hB : ∀ i, B' i = B i) (hE : ∀ i, E' i = E i) (hN : N' = N) :
     OrderInvF J' Q' B' E' N' := by
